@@ -171,6 +171,38 @@ Section Micro.
     intros o s HI Hp Hce e He. destruct (u_owner _ _ HI e He) as [H|[[H|H] _]]; [exact H| |]; congruence.
   Qed.
 
+  (* every tracked entry belongs to some handler incarnation (model-only) *)
+  Definition handled (s : st) : Prop :=
+    forall e, In e (s_inflight s) -> exists hr, In hr (s_handlers s) /\ h_h hr = e_h e.
+
+  Lemma all_owned_of_handled : forall o (s : st), InvU o s -> handled s -> all_owned o s.
+  Proof.
+    intros o s HI Hh Hce e He. destruct (u_owner _ _ HI e He) as [H|[_ Hno]]; [exact H|].
+    exfalso. destruct (Hh e He) as (hr & Hin & Heq). exact (Hno hr Hin Heq).
+  Qed.
+
+  Lemma handled_sub : forall (s s' : st),
+    handled s -> (forall e, In e (s_inflight s') -> In e (s_inflight s)) ->
+    map h_h (s_handlers s') = map h_h (s_handlers s) -> handled s'.
+  Proof.
+    intros s s' Hh Hsub Hm e He. destruct (Hh e (Hsub e He)) as (hr & Hin & Heq).
+    assert (In (h_h hr) (map h_h (s_handlers s'))) by (rewrite Hm; apply in_map; exact Hin).
+    apply in_map_iff in H. destruct H as (hr' & E1 & E2). exists hr'. split; [exact E2|congruence].
+  Qed.
+
+  (* whether some handler carries the handle of e is decidable *)
+  Lemma classic_handled : forall (s : st) e,
+    (exists hr, In hr (s_handlers s) /\ h_h hr = e_h e)
+    \/ (forall hr, In hr (s_handlers s) -> h_h hr <> e_h e).
+  Proof.
+    intros s e. induction (s_handlers s) as [|x l IH]; [right; intros hr []|].
+    destruct (Nat.eq_dec (h_h x) (e_h e)) as [E|N].
+    - left. exists x. split; [left; reflexivity|exact E].
+    - destruct IH as [(hr & A & B)|IH].
+      + left. exists hr. split; [right; exact A|exact B].
+      + right. intros hr [<-|Hin]; auto.
+  Qed.
+
   (* ---- poll_next of the transport ------------------------------------------------------------ *)
   Lemma ocall_next_proj : forall lim o r,
     let o' := o_call lim o (CNext r) in
@@ -296,6 +328,8 @@ Section Micro.
     /\ (forall hr, In hr (s_handlers s) -> h_h hr <> q_h q)
     /\ q_h q < s_next_h s /\ ~ In (q_h q) (s_aborted s)
     /\ (forall e, In e (s_inflight s) -> e_h e = q_h q ->
+                  e = {| e_id := q_id q; e_h := q_h q; e_dl := q_dl q |})
+    /\ (forall e, In e (s_inflight s) -> e_id e = q_id q ->
                   e = {| e_id := q_id q; e_h := q_h q; e_dl := q_dl q |}).
 
   Lemma step_next_dup : forall lim o (s : st) id dl tr body s3,
@@ -321,7 +355,8 @@ Section Micro.
     start_request id dl s3 = Some (h, s4) ->
     let o' := o_call lim o (CNext (RItem (MReq id dl tr body))) in
     let q := {| q_id := id; q_h := h; q_dl := dl; q_tr := tr; q_body := body |} in
-    InvU o' s4 /\ PendQ o' s4 q /\ c_err (o_v o') = false.
+    InvU o' s4 /\ PendQ o' s4 q /\ c_err (o_v o') = false
+    /\ In {| e_id := id; e_h := h; e_dl := dl |} (s_inflight s4).
   Proof.
     intros lim o s id dl tr body s3 h s4 HI Hown Hce H Hs. cbv zeta.
     destruct (step_next_dup lim o s id dl tr body s3 HI Hown Hce H) as (HI3 & Hall3 & Hce3).
@@ -335,7 +370,7 @@ Section Micro.
       apply nth_error_Some in Hlt.
       destruct (nth_error (o_incs (o_call lim o (CNext (RItem (MReq id dl tr body))))) k) as [oi|] eqn:Eoi; [|congruence].
       destruct (u_hand _ _ HI3 k hr oi Hk Eoi) as (_ & _ & _ & D). subst h. lia. }
-    split; [|split; [|exact Hce3]].
+    split; [|split; [|split; [exact Hce3|rewrite Hi; apply in_or_app; right; left; reflexivity]]].
     - apply (InvU_accept _ _ s3 s4 id dl h HI3 Hall3 Hce3 Hs); auto.
     - unfold PendQ. cbn [q_id q_h q_dl q_tr q_body]. rewrite Hha, Hi, Hn, Hab.
       split; [exact Pn|]. split; [|split; [exact Hfreshh|split; [subst h; lia|split]]].
@@ -343,8 +378,11 @@ Section Micro.
         exfalso. destruct (Hall3 Hce3 e He) as (k & hr & oi & A & B & C & _).
         apply (Hno hr); [eapply nth_error_In; eauto|exact C].
       + intros Hin. pose proof (u_abfresh _ _ HI3 h Hin). subst h. lia.
-      + intros e He Heh. apply in_app_or in He. destruct He as [He|[<-|[]]]; [|reflexivity].
-        exfalso. pose proof (u_efresh _ _ HI3 e He). subst h. lia.
+      + split.
+        * intros e He Heh. apply in_app_or in He. destruct He as [He|[<-|[]]]; [|reflexivity].
+          exfalso. pose proof (u_efresh _ _ HI3 e He). subst h. lia.
+        * intros e He Heid. apply in_app_or in He. destruct He as [He|[<-|[]]]; [|reflexivity].
+          exfalso. exact (tracked_false_not_in _ _ Htr e He Heid).
   Qed.
 
   Lemma PendQ_frame : forall o o' (s s' : st) q,
@@ -353,7 +391,7 @@ Section Micro.
     s_aborted s' = s_aborted s -> (forall e, In e (s_inflight s') -> In e (s_inflight s)) ->
     PendQ o' s' q.
   Proof.
-    intros o o' s s' q (A & B & C & D & E & F) Hp Hm Hn Ha Hi.
+    intros o o' s s' q (A & B & C & D & E & F & G) Hp Hm Hn Ha Hi.
     assert (HinH : forall hr, In hr (s_handlers s) -> exists hr', In hr' (s_handlers s') /\ h_h hr' = h_h hr).
     { intros hr Hin. assert (In (h_h hr) (map h_h (s_handlers s'))) by (rewrite Hm; apply in_map; exact Hin).
       apply in_map_iff in H. destruct H as (hr' & E1 & E2). eauto. }
@@ -364,5 +402,176 @@ Section Micro.
     - intros e He Hno. apply B; auto. intros hr Hin. destruct (HinH _ Hin) as (hr' & Hin' & Eq).
       rewrite <- Eq. apply Hno. exact Hin'.
     - intros hr' Hin'. destruct (HinH' _ Hin') as (hr & Hin & Eq). rewrite <- Eq. apply C. exact Hin.
+  Qed.
+
+  (* ---- start_send ------------------------------------------------------------------------------- *)
+  Lemma ocall_send_proj : forall lim o m r,
+    let o' := o_call lim o (CSend m r) in
+    o_now o' = o_now o /\ o_dropped o' = o_dropped o /\ o_eof o' = o_eof o
+    /\ c_err (o_v o') = c_err (o_v o) /\ v_bad (o_v o') = v_bad (o_v o) /\ h_stop (o_v o') = h_stop (o_v o)
+    /\ match resp_body m with
+       | BThrottle => o_incs o' = close_at (last_open (resp_id m) (o_incs o)) WClosed (o_incs o)
+                      /\ o_pend o' = None
+       | _ => o_incs o' = close_at (last_open (resp_id m) (o_incs o)) WAnswered (o_incs o)
+              /\ o_pend o' = o_pend o
+       end.
+  Proof.
+    intros lim o m r. cbv zeta. unfold o_call. fold (pre_err o).
+    destruct (pre_err_proj o) as (A1 & A2 & A3 & A4 & A5 & A6 & A7 & A8 & A9 & A10 & A11 & A12 & A13 & A14 & A15 & A16).
+    destruct (resp_body m) eqn:EB.
+    1,2,4: (destruct (last_open (resp_id m) (o_incs (pre_err o))) as [k|] eqn:EL;
+            oproj; rewrite A1 in EL; rewrite EL; unfold close_at;
+            rewrite ?A1, ?A2, ?A3, ?A4, ?A5, ?A13, ?A14, ?A16; repeat split; auto).
+    destruct (accept_id_proj (resp_id m) (chk12b (pre_err o)
+                (match o_pend (pre_err o) with
+                 | Some (id, _, _, _) => match lim with Some _ => N.eqb id (resp_id m) | None => false end
+                 | None => false end)))
+      as (B1 & B2 & B3 & B4 & B5 & B6 & B7 & B8 & B9 & B10 & B11 & B12 & B13).
+    oproj. rewrite ?orb_false_r, ?andb_true_r.
+    match goal with |- context [accept_id ?i ?x] =>
+      destruct (accept_id_proj i x) as (D1 & D2 & D3 & D4 & D5 & D6 & D7 & D8 & D9 & D10 & D11 & D12 & D13) end.
+    oproj. rewrite D1, D2, D3, D4, D11, D12, D13. oproj. rewrite A1, A2, A3, A4, A13, A14, A16.
+    repeat split; auto.
+  Qed.
+
+  Lemma base_start_send_shape : forall m (s : st) e s',
+    base_start_send tp m s = (e, s') ->
+    (find_entry (resp_id m) s = None /\ e = None /\ s' = s)
+    \/ (exists en r, find_entry (resp_id m) s = Some en
+        /\ (e = match r with SOk => None | SErr => Some AWrite end)
+        /\ s_inflight s' = drop_entry (resp_id m) (s_inflight s)
+        /\ s_timers s' = drop_timer (resp_id m) (s_timers s)
+        /\ s_handlers s' = s_handlers s /\ s_next_h s' = s_next_h s /\ s_aborted s' = s_aborted s
+        /\ s_cancels s' = s_cancels s /\ s_now s' = s_now s /\ s_dropped s' = s_dropped s
+        /\ s_fused s' = s_fused s /\ s_respq s' = s_respq s /\ s_permits s' = s_permits s
+        /\ s_waiters s' = s_waiters s /\ s_log s' = CSend m r :: s_log s).
+  Proof.
+    intros m s e s' H. unfold base_start_send in H.
+    destruct (remove_request_shape (resp_id m) s) as [(Hf & Heq & Hn)|(Hf & (en & Hen) & B1 & B2 & B3 & B4 & B5 & B6 & B7 & B8 & B9 & B10 & B11 & B12 & B13 & B14)];
+      cbv zeta in *; destruct (remove_request (resp_id m) s) as [was s1]; cbn [fst snd] in *; subst was.
+    - injection H as <- <-. left. auto.
+    - destruct (do_send tp m s1) as [r s2] eqn:ES. injection H as <- <-.
+      destruct (do_send_core _ _ _ _ ES) as ((C1 & C2 & C3 & C4 & C5 & C6 & C7 & C8) & F & Q & P & W & L).
+      right. exists en, r. repeat split; try congruence.
+  Qed.
+
+  (* the throttle reply for the request just accepted *)
+  Lemma step_throttle : forall lim o (s : st) q e s',
+    InvU o s -> PendQ o s q -> c_err (o_v o) = false ->
+    In {| e_id := q_id q; e_h := q_h q; e_dl := q_dl q |} (s_inflight s) ->
+    base_start_send tp (mkresp (q_id q) BThrottle) s = (e, s') ->
+    exists r, s_log s' = CSend (mkresp (q_id q) BThrottle) r :: s_log s
+      /\ (e = match r with SOk => None | SErr => Some AWrite end)
+      /\ let o' := o_call lim o (CSend (mkresp (q_id q) BThrottle) r) in
+         InvU o' s' /\ pend_id o' = None /\ c_err (o_v o') = false
+         /\ s_inflight s' = drop_entry (q_id q) (s_inflight s).
+  Proof.
+    intros lim o s q e s' HI HP Hce Hin H.
+    destruct (base_start_send_shape _ _ _ _ H) as [(Hn & _ & _)|(en & r & Hen & He & B1 & B2 & B3 & B4 & B5 & B6 & B7 & B8 & B9 & B10 & B11 & B12 & L)].
+    { exfalso. cbn in Hn. apply (find_entry_none _ _ Hn _ Hin). reflexivity. }
+    exists r. split; [exact L|]. split; [exact He|]. cbv zeta.
+    destruct (ocall_send_proj lim o (mkresp (q_id q) BThrottle) r) as (P1 & P2 & P3 & P4 & P5 & P6 & I & Pn).
+    cbv zeta in *. cbn [resp_body resp_id] in *.
+    destruct HP as (Q1 & Q2 & Q3 & Q4 & Q5 & Q6).
+    split; [|split; [unfold pend_id; rewrite Pn; reflexivity|split; [congruence|exact B1]]].
+    apply (InvU_untrack o _ s s' (q_id q) WClosed HI I eq_refl P1 P2).
+    - intros Eo. rewrite P3. exact Eo.
+    - intros e0 He0 Hne Hno _. exfalso. pose proof (Q2 e0 He0 Hno) as ->. cbn in Hne. congruence.
+    - intros _. exact Hce.
+    - exact B1.
+    - exact B2.
+    - left. exact B5.
+    - intros id' _ Hid. rewrite B6. exact Hid.
+    - exact B3.
+    - exact B4.
+    - exact B7.
+    - exact B8.
+    - exact B9.
+  Qed.
+
+  (* ---- a response leaves the queue: its permit returns, then start_send --------------------- *)
+  Lemma upd_nth_id : forall k (l : list oinc), upd_nth k (fun i => i) l = l.
+  Proof. intros k l; revert k; induction l; destruct k; cbn; auto. f_equal; auto. Qed.
+
+  Lemma add_permit_shape : forall (s : st),
+    let s' := add_permit s in
+    map h_h (s_handlers s') = map h_h (s_handlers s)
+    /\ (forall j hr', nth_error (s_handlers s') j = Some hr' ->
+          exists hr, nth_error (s_handlers s) j = Some hr /\ h_h hr' = h_h hr /\ h_id hr' = h_id hr
+                     /\ (h_st hr' = h_st hr \/ exists b, h_st hr = HWait b /\ h_st hr' = HPermit b))
+    /\ s_next_h s' = s_next_h s /\ s_inflight s' = s_inflight s /\ s_timers s' = s_timers s
+    /\ s_aborted s' = s_aborted s /\ s_cancels s' = s_cancels s /\ s_now s' = s_now s
+    /\ s_dropped s' = s_dropped s /\ s_fused s' = s_fused s /\ s_respq s' = s_respq s
+    /\ s_log s' = s_log s /\ s_t s' = s_t s.
+  Proof.
+    intros s. cbv zeta. unfold add_permit.
+    destruct (s_waiters s) as [|k r]; sproj.
+    { repeat split; auto. intros j hr' Hj. exists hr'. auto. }
+    destruct (nth_error (s_handlers s) k) as [[h i stt]|] eqn:EK; sproj.
+    2: { repeat split; auto. intros j hr' Hj. exists hr'. auto. }
+    destruct stt; sproj; try (repeat split; auto; intros j hr' Hj; exists hr'; auto).
+    rewrite set_hst_map_h. repeat split; auto.
+    intros j hr' Hj. destruct (Nat.eq_dec k j) as [->|Hne].
+    - rewrite (set_hst_same _ _ _ _ EK) in Hj. inversion Hj; subst hr'. cbn.
+      eexists. split; [exact EK|]. cbn. repeat split; auto. right. eauto.
+    - rewrite (set_hst_other _ _ _ _ Hne) in Hj. exists hr'. auto.
+  Qed.
+
+  Lemma InvU_add_permit : forall o (s : st) q,
+    InvU o s -> InvU o (add_permit (set_respq s q)).
+  Proof.
+    intros o s q HI.
+    destruct (add_permit_shape (set_respq s q)) as (A1 & A2 & A3 & A4 & A5 & A6 & A7 & A8 & A9 & A10 & _).
+    cbv zeta in *. sproj.
+    apply (InvU_hupd o o s _ 0 (fun i => i) HI A1); auto.
+    - symmetry. apply upd_nth_id.
+    - intros j hr' oi' Hj Hoi'. destruct (A2 j hr' Hj) as (hr & Hhr & E1 & E2 & E3).
+      destruct (u_hand _ _ HI j hr oi' Hhr Hoi') as (B1 & B2 & B3 & _).
+      rewrite E2. split; [exact B1|].
+      destruct E3 as [E3|(b & E3 & E4)]; [rewrite E3; auto|].
+      rewrite E3 in B2, B3. rewrite E4. cbn in *. destruct (oi_ph oi'); auto.
+    - intros id. rewrite A7. auto.
+  Qed.
+
+  (* pump_write pops one response and hands it to the channel *)
+  Lemma step_send : forall lim o (s : st) m q e s',
+    InvU o s -> c_err (o_v o) = false ->
+    resp_body m <> BThrottle ->
+    base_start_send tp m (add_permit (set_respq s q)) = (e, s') ->
+    (e = None /\ s_log s' = s_log s /\ InvU o s'
+     /\ (forall x, In x (s_inflight s') -> In x (s_inflight s)) /\ s_inflight s' = s_inflight s)
+    \/ (exists r, s_log s' = CSend m r :: s_log s
+        /\ (e = match r with SOk => None | SErr => Some AWrite end)
+        /\ let o' := o_call lim o (CSend m r) in
+           InvU o' s' /\ o_pend o' = o_pend o /\ c_err (o_v o') = false
+           /\ s_inflight s' = drop_entry (resp_id m) (s_inflight s)).
+  Proof.
+    intros lim o s m q e s' HI Hce Hnt H.
+    pose proof (InvU_add_permit o s q HI) as HI1.
+    destruct (add_permit_shape (set_respq s q)) as (A1 & A2 & A3 & A4 & A5 & A6 & A7 & A8 & A9 & A10 & A11 & A12 & A13).
+    cbv zeta in *. sproj.
+    destruct (base_start_send_shape _ _ _ _ H) as [(Hn & He & Hs)|(en & r & Hen & He & B1 & B2 & B3 & B4 & B5 & B6 & B7 & B8 & B9 & B10 & B11 & B12 & L)].
+    - left. subst s'. split; [exact He|split; [exact A12|split; [exact HI1|split; [intros x Hx; rewrite A4 in Hx; exact Hx|exact A4]]]].
+    - right. exists r. split; [rewrite L, A12; reflexivity|]. split; [exact He|]. cbv zeta.
+      destruct (ocall_send_proj lim o m r) as (P1 & P2 & P3 & P4 & P5 & P6 & P7). cbv zeta in *.
+      assert (P7' : o_incs (o_call lim o (CSend m r)) = close_at (last_open (resp_id m) (o_incs o)) WAnswered (o_incs o)
+                    /\ o_pend (o_call lim o (CSend m r)) = o_pend o).
+      { destruct (resp_body m); try exact P7. congruence. }
+      destruct P7' as (I & Pn).
+      split; [|split; [exact Pn|split; [congruence|rewrite B1, A4; reflexivity]]].
+      apply (InvU_untrack o _ _ s' (resp_id m) WAnswered HI1 I eq_refl P1 P2).
+      + intros Eo. rewrite P3. exact Eo.
+      + intros e0 He0 Hne Hno [Hp|Hc]; [left|right; congruence].
+        unfold pend_id in *. rewrite Pn. exact Hp.
+      + intros _. exact Hce.
+      + exact B1.
+      + exact B2.
+      + left. exact B5.
+      + intros id' _ Hid. rewrite B6. exact Hid.
+      + exact B3.
+      + exact B4.
+      + exact B7.
+      + exact B8.
+      + exact B9.
   Qed.
 End Micro.
